@@ -68,6 +68,30 @@ pub struct Trace {
     /// branch the generator emitted: kind, addresses at which the machine code continues) and the
     /// execution ended there with a fault that contradicts it
     pub contradiction: Option<(u64, Kind, Vec<u64>)>,
+    /// (stepper) things that happened during the execution, for the class counters
+    pub dyn_classes: Vec<&'static str>,
+}
+
+/// The architectural decision of a MIPS conditional branch on the given state (None: a register
+/// is not defined).  Independent of falcon: the generator knows which test it encoded.
+fn mips_decide(test: (u8, u8, u8), s: &RefState) -> Option<bool> {
+    let get = |r: u8| -> Option<u32> {
+        if r == 0 {
+            Some(0)
+        } else {
+            s.scalars.get(&super::prog::mips_rname(r)).map(|b| b.low_u64() as u32)
+        }
+    };
+    let a = get(test.1)?;
+    let b = get(test.2)?;
+    Some(match test.0 {
+        0 => a == b,
+        1 => a != b,
+        2 => (a as i32) <= 0,
+        3 => (a as i32) > 0,
+        4 => (a as i32) < 0,
+        _ => (a as i32) >= 0,
+    })
 }
 
 /// what the digests range over
@@ -181,6 +205,10 @@ pub struct Unit {
     pub il_instrs: Vec<usize>,
     /// target expression of the unit's Branch operation, if it has one
     pub branch_expr: Option<il::Expression>,
+    /// a rep-prefixed string instruction: executes its body `count` times, possibly not at all.
+    /// Events follow the rule of the function side (a new event when IL is re-entered, none when
+    /// no IL instruction executes)
+    pub repeats: bool,
 }
 
 pub fn make_unit(p: &Program, k: usize, btr: &BlockTranslationResult) -> Result<Unit, String> {
@@ -224,6 +252,7 @@ pub fn make_unit(p: &Program, k: usize, btr: &BlockTranslationResult) -> Result<
         il_blocks,
         il_instrs,
         branch_expr,
+        repeats: p.isa.is_x86() && p.insns[k].text.starts_with("rep"),
     })
 }
 
@@ -289,8 +318,15 @@ pub fn run_stepper(p: &Program, units: &BTreeMap<u64, Unit>, init: &RefState, li
     let idle_limit = p.insns.len() + 8;
     let to_no_il = std::cell::Cell::new(false);
     let contradiction: std::cell::RefCell<Option<(u64, Kind, Vec<u64>)>> = std::cell::RefCell::new(None);
+    let dyn_classes: std::cell::RefCell<Vec<&'static str>> = std::cell::RefCell::new(Vec::new());
+    let dyn_class = |c: &'static str| {
+        let mut v = dyn_classes.borrow_mut();
+        if !v.contains(&c) {
+            v.push(c);
+        }
+    };
     let fin = |rec: Rec, end: End, state: RefState, md: u64, taken: usize, note: String| -> Trace {
-        Trace { evs: rec.evs, end, final_digest: scal_digest_ref(w, &state) ^ md.rotate_left(1), taken, snapshot: rec.snapshot, final_state: Some(state), note, branch_to_no_il: to_no_il.get(), first_instruction_rule_differs: false, contradiction: contradiction.borrow().clone() }
+        Trace { evs: rec.evs, end, final_digest: scal_digest_ref(w, &state) ^ md.rotate_left(1), taken, snapshot: rec.snapshot, final_state: Some(state), note, branch_to_no_il: to_no_il.get(), first_instruction_rule_differs: false, contradiction: contradiction.borrow().clone(), dyn_classes: dyn_classes.borrow().clone() }
     };
     // the generator's ground truth for the unit at `pc`: kind and continuation addresses of a plain
     // instruction / a direct branch it emitted, when all of them are lifted
@@ -311,6 +347,11 @@ pub fn run_stepper(p: &Program, units: &BTreeMap<u64, Unit>, init: &RefState, li
         let Some(u) = units.get(&pc) else {
             return fin(rec, End::Fault("pc-outside-lifted-set".into()), state, md, taken, format!("pc 0x{:x}", pc));
         };
+        // MIPS: the machine decides a conditional branch on the register values it has when the
+        // branch executes, i.e. before the delay slot
+        let insn = p.by_addr.get(&pc).map(|k| &p.insns[*k]);
+        let mips_test = if p.isa.is_mips() { insn.and_then(|i| i.mips_test.map(|t| (t, i.target))) } else { None };
+        let mips_taken: Option<bool> = mips_test.and_then(|(t, _)| mips_decide(t, &state));
         let mut branch: Option<u64> = None;
         for (k, (raw, view)) in u.graphs.iter().enumerate() {
             let a = *raw;
@@ -318,6 +359,69 @@ pub fn run_stepper(p: &Program, units: &BTreeMap<u64, Unit>, init: &RefState, li
             // AArch64 direct branch while that known finding is tolerated): nothing executes there
             // and the recovered function has nothing to show for it: not an event on either side
             let silent = u.il_instrs[k] == 0;
+            if u.repeats {
+                let mut m = match Machine::new(view, state.clone()) {
+                    Ok(m) => m,
+                    Err(f) => return fin(rec, End::Fault(format!("graph-entry:{}", f.kind())), state, md, taken, format!("unit 0x{:x}", pc)),
+                };
+                // the first IL instruction that executes starts an event
+                rec.cur = None;
+                let mut steps = 0usize;
+                let res: Result<Option<u64>, String> = loop {
+                    steps += 1;
+                    if steps > 400_000 {
+                        break Err("graph-step-limit".into());
+                    }
+                    let last = at_graph_end(view, m.loc);
+                    if last {
+                        if let Loc::Empty(_) = m.loc {
+                            break Ok(None);
+                        }
+                    }
+                    if let Loc::Instr(b, i) = m.loc {
+                        if rec.starts_event(a, (b, i)) {
+                            if rec.evs.len() >= rec.cap {
+                                return fin(rec, End::Cap, m.state, md, taken, String::new());
+                            }
+                            if rec.snapshot_at == Some(rec.evs.len()) {
+                                rec.snapshot = Some(m.state.clone());
+                            }
+                            rec.begin(a, scal_digest_ref(w, &m.state) ^ md.rotate_left(1));
+                            dyn_class("rep-iteration");
+                        }
+                        rec.visited.insert((b, i));
+                    }
+                    match m.step() {
+                        Ok(Effect::Branch { target }) => break Ok(Some(target)),
+                        Ok(Effect::Store { .. }) => md = mem_digest_ref(w, &m.state),
+                        Ok(_) => {}
+                        Err(Fault::NoEdge) if last && m.last_effect.is_some() => {
+                            if let Some(Effect::Store { .. }) = m.last_effect {
+                                md = mem_digest_ref(w, &m.state);
+                            }
+                            break Ok(None);
+                        }
+                        Err(f) => {
+                            break Err(match &f {
+                                Fault::UndefinedScalar(n) => format!("undefined-scalar:{}", n),
+                                other => other.kind().to_string(),
+                            })
+                        }
+                    }
+                };
+                if rec.cur.is_none() {
+                    dyn_class("rep-with-count-zero");
+                }
+                state = m.state;
+                match res {
+                    Ok(Some(t)) => {
+                        branch = Some(t);
+                        break;
+                    }
+                    Ok(None) => continue,
+                    Err(e) => return fin(rec, End::Fault(e), state, md, taken, format!("unit 0x{:x} graph 0x{:x}", pc, a)),
+                }
+            }
             if !silent {
                 if rec.evs.len() >= rec.cap {
                     return fin(rec, End::Cap, state, md, taken, String::new());
@@ -377,6 +481,32 @@ pub fn run_stepper(p: &Program, units: &BTreeMap<u64, Unit>, init: &RefState, li
                             if !t.2.contains(&a) {
                                 *contradiction.borrow_mut() = Some(t);
                                 return fin(rec, End::Fault("successor-not-in-ground-truth".into()), state, md, taken, format!("unit 0x{:x} continues at 0x{:x}: successors {}", pc, a, show_successors(&u.successors)));
+                            }
+                        }
+                        if let (Some(taken_before), Some((test, Some(target)))) = (mips_taken, mips_test) {
+                            let want = if taken_before { target } else { u.fallthrough };
+                            if a != want {
+                                *contradiction.borrow_mut() = Some((pc, Kind::Cond, vec![want]));
+                                return fin(
+                                    rec,
+                                    End::Fault("successor-contradicts-branch-test".into()),
+                                    state,
+                                    md,
+                                    taken,
+                                    format!("unit 0x{:x} continues at 0x{:x}, the branch test on the registers as they were before the delay slot says {}: successors {}", pc, a, if taken_before { "taken" } else { "not taken" }, show_successors(&u.successors)),
+                                );
+                            }
+                            dyn_class("mips-cond-executed");
+                            if target != u.fallthrough && mips_decide(test, &state) == Some(!taken_before) {
+                                dyn_class("slot-flips-branch-test");
+                            }
+                        }
+                        if let Some(i) = insn {
+                            if p.isa.is_x86() && i.text.starts_with("loop") && i.text.as_bytes().get(4) != Some(&b' ') && a == u.fallthrough {
+                                let cx = if p.isa == Isa::Amd64 { "rcx" } else { "ecx" };
+                                if state.scalars.get(cx).map(|v| v.low_u64() != 0).unwrap_or(false) {
+                                    dyn_class("loopcc-left-with-count-nonzero");
+                                }
                             }
                         }
                         if u.is_branch && a != u.fallthrough {
@@ -471,7 +601,7 @@ pub fn run_ref(isa: Isa, view: &FnView, init: &RefState, lifted: &BTreeSet<u64>,
     let mut m = match Machine::new(view, init.clone()) {
         Ok(m) => m,
         Err(f) => {
-            return Trace { evs: vec![], end: End::Fault(format!("entry:{}", f.kind())), final_digest: 0, taken: 0, snapshot: None, final_state: None, note: String::new(), branch_to_no_il: false, first_instruction_rule_differs: false, contradiction: None };
+            return Trace { evs: vec![], end: End::Fault(format!("entry:{}", f.kind())), final_digest: 0, taken: 0, snapshot: None, final_state: None, note: String::new(), branch_to_no_il: false, first_instruction_rule_differs: false, contradiction: None, dyn_classes: Vec::new() };
         }
     };
     let mut md = mem_digest_ref(w, &m.state);
@@ -602,7 +732,7 @@ pub fn run_ref(isa: Isa, view: &FnView, init: &RefState, lifted: &BTreeSet<u64>,
         }
     };
     let fd = scal_digest_ref(w, &m.state) ^ md.rotate_left(1);
-    Trace { evs: rec.evs, end, final_digest: fd, taken: 0, snapshot: rec.snapshot, final_state: Some(m.state), note, branch_to_no_il: false, first_instruction_rule_differs, contradiction: None }
+    Trace { evs: rec.evs, end, final_digest: fd, taken: 0, snapshot: rec.snapshot, final_state: Some(m.state), note, branch_to_no_il: false, first_instruction_rule_differs, contradiction: None, dyn_classes: Vec::new() }
 }
 
 // ---------------------------------------------------------------------------------------------
@@ -614,7 +744,7 @@ pub fn run_block(view: &FnView, init: &RefState, w: &Watch, cap: usize) -> Trace
     let mut m = match Machine::new(view, init.clone()) {
         Ok(m) => m,
         Err(f) => {
-            return Trace { evs: vec![], end: End::Fault(format!("entry:{}", f.kind())), final_digest: 0, taken: 0, snapshot: None, final_state: None, note: String::new(), branch_to_no_il: false, first_instruction_rule_differs: false, contradiction: None };
+            return Trace { evs: vec![], end: End::Fault(format!("entry:{}", f.kind())), final_digest: 0, taken: 0, snapshot: None, final_state: None, note: String::new(), branch_to_no_il: false, first_instruction_rule_differs: false, contradiction: None, dyn_classes: Vec::new() };
         }
     };
     let mut md = mem_digest_ref(w, &m.state);
@@ -654,7 +784,7 @@ pub fn run_block(view: &FnView, init: &RefState, w: &Watch, cap: usize) -> Trace
         }
     };
     let fd = scal_digest_ref(w, &m.state) ^ md.rotate_left(1);
-    Trace { evs: rec.evs, end, final_digest: fd, taken: 0, snapshot: None, final_state: Some(m.state), note, branch_to_no_il: false, first_instruction_rule_differs: false, contradiction: None }
+    Trace { evs: rec.evs, end, final_digest: fd, taken: 0, snapshot: None, final_state: Some(m.state), note, branch_to_no_il: false, first_instruction_rule_differs: false, contradiction: None, dyn_classes: Vec::new() }
 }
 
 // ---------------------------------------------------------------------------------------------
@@ -668,7 +798,7 @@ pub fn run_driver(isa: Isa, function: &il::Function, arch: RC<dyn Architecture>,
         Ok(Loc::Instr(b, i)) => il::FunctionLocation::Instruction(b, i),
         Ok(Loc::Empty(b)) => il::FunctionLocation::EmptyBlock(b),
         _ => {
-            return Trace { evs: vec![], end: End::Fault("entry".into()), final_digest: 0, taken: 0, snapshot: None, final_state: None, note: String::new(), branch_to_no_il: false, first_instruction_rule_differs: false, contradiction: None };
+            return Trace { evs: vec![], end: End::Fault("entry".into()), final_digest: 0, taken: 0, snapshot: None, final_state: None, note: String::new(), branch_to_no_il: false, first_instruction_rule_differs: false, contradiction: None, dyn_classes: Vec::new() };
         }
     };
     let mut program = il::Program::new();
@@ -754,7 +884,7 @@ pub fn run_driver(isa: Isa, function: &il::Function, arch: RC<dyn Architecture>,
     };
     let fd = scal_digest_falcon(w, driver.state()) ^ md.rotate_left(1);
     let fs = falcon_to_ref(w, driver.state(), big);
-    Trace { evs: rec.evs, end, final_digest: fd, taken: 0, snapshot: rec.snapshot, final_state: Some(fs), note, branch_to_no_il: false, first_instruction_rule_differs: false, contradiction: None }
+    Trace { evs: rec.evs, end, final_digest: fd, taken: 0, snapshot: rec.snapshot, final_state: Some(fs), note, branch_to_no_il: false, first_instruction_rule_differs: false, contradiction: None, dyn_classes: Vec::new() }
 }
 
 pub fn error_kind(e: &falcon::Error) -> String {
